@@ -206,3 +206,9 @@ Definition a256_new (i : N) : N := i.
 
 (* Palette(pub [Rgb; 16]): the list itself *)
 Definition pal_f0 (p : list rgb) : list rgb := p.
+Definition pal_new (raw : list rgb) : list rgb := raw.
+
+(* impl Default for Palette: `DEFAULT`, which off Windows is `pub use VGA as DEFAULT` (the palette Model/Roff.v and
+   Model/Svg.v name as the default one); impl From<[RgbColor; 16]> for Palette wraps the array unchanged *)
+Definition palette_default : list rgb := vga.
+Definition palette_from (raw : list rgb) : list rgb := raw.
